@@ -115,12 +115,13 @@ func (w *walker) message(m *desc.Message, path string, depth int) map[string]*At
 		f := &m.Fields[i]
 		typeName := m.Name + "." + f.Name
 		if f.Embed {
-			// the embedding field itself is addressed by its Message.Field key only (its path is the message name)
-			if has(w.cfg.ExcludeFields, typeName, m.Name) {
+			// the embedded message's fields belong to the embedding message: the path does not grow
+			// (the embedding field itself is addressed by its Message.Field key or by the path of its message)
+			if has(w.cfg.ExcludeFields, typeName, path) {
 				continue
 			}
 			if sub := w.req.FindMessage(f.TypeName); sub != nil {
-				for k, v := range w.message(sub, m.Name, depth+1) {
+				for k, v := range w.message(sub, path, depth+1) {
 					out[k] = v
 				}
 			}
